@@ -475,7 +475,7 @@ def probe_table():
         for r in rules:
             methods = sorted(r.methods)
             is_static = (r.endpoint == "static")
-            reached_any, auto = False, False
+            reached_any, auto, reached_by = False, False, []
             for m in methods:
                 for idn in (["SESSION", "UNKNOWN"] if "<" in r.rule and not is_static else ["UNKNOWN"]):
                     st, reached, ch = w.request(r.rule, m, idn, None, UNION_BODY)
@@ -486,10 +486,12 @@ def probe_table():
                             reached_any = True
                     elif reached:
                         reached_any = True
+                    if reached and m not in reached_by:
+                        reached_by.append(m)
                     if ch:
                         w.close(); w = World("live-session", token=SENTINEL)
             table.append({"rule": r.rule, "methods": methods, "prot": (not reached_any) and not is_static,
-                          "auto": auto, "static": is_static, "endpoint": r.endpoint})
+                          "auto": auto, "static": is_static, "endpoint": r.endpoint, "reached_by": reached_by})
         sf = []
         if app.static_folder and os.path.isdir(app.static_folder):
             for root, _, fns in os.walk(app.static_folder):
@@ -508,7 +510,7 @@ def route_ok(r, static_files):
     return r["rule"] in PUBLIC or ((not static_files) if r["static"] else r["prot"])
 
 
-def gen_lean(table, static_files, triples=(), calls=None):
+def gen_lean(table, static_files, triples=(), calls=None, mrows=None):
     rows = ",\n    ".join(
         "{ rule := %s, methods := [%s], prot := %s, autoOptions := %s, static := %s }" % (
             lean_str(r["rule"]), ", ".join(lean_str(m) for m in r["methods"]),
@@ -576,6 +578,34 @@ def gen_lean(table, static_files, triples=(), calls=None):
             body += (f"theorem violated_compare : ¬ C15_fullC cfg :=\n  C15_witness_compare cfg {tgt[0]} {lean_str(tgt[1])} {lean_chars(p0)} {lean_chars(e0)} (by decide +kernel)\n"
                      "#print axioms violated_compare\n")
             verdict["compare_witness"] = {"presented": p0, "expected": e0, "rule": table[tgt[0]]["rule"], "method": tgt[1]}
+    if mrows is not None:
+        body += "def methodObs : MethodObs := [" + ", ".join("(%s, %s)" % (lean_str(m), str(bool(v)).lower()) for m, v in mrows) + "]\n"
+        skipped = [m for m, v in mrows if v]
+        verdict["check_ignores_method"] = not skipped
+        if not skipped:
+            body += "theorem check_ignores_method : checkIgnoresMethod methodObs = true := by decide\n#print axioms check_ignores_method\n"
+            body += "theorem fullM_iff : C15_fullM table methodObs ↔ C15_full table := C15_fullM_iff table methodObs check_ignores_method\n#print axioms fullM_iff\n"
+            if all_ok:
+                body += ("theorem every_method {σ π : Type} (V : View σ π) (τ : List Char) (s : σ) (i : Nat) (rt : Route) (hr : table.routes[i]? = some rt)\n"
+                         "    (hp : isPublic rt = false) (m : String) (a : Option (List Char)) (f : String) (p : π)\n"
+                         "    (hnp : ¬ presents ({ route := i, method := m, auth := a, file := f, payload := p } : Request π) τ) :\n"
+                         "    (handleM methodObs V table (some τ) s { route := i, method := m, auth := a, file := f, payload := p }).1 = s ∧\n"
+                         "    (¬ (m = \"OPTIONS\" ∧ rt.autoOptions = true) →\n"
+                         "      (handleM methodObs V table (some τ) s { route := i, method := m, auth := a, file := f, payload := p }).2 ≥ 400) :=\n"
+                         "  C15_every_method table methodObs (by decide) check_ignores_method V τ s i rt hr hp m a f p hnp\n#print axioms every_method\n")
+        else:
+            verdict["full"] = False
+            body += "theorem check_consults_method : checkIgnoresMethod methodObs = false := by decide\n#print axioms check_consults_method\n"
+            tgt = None
+            for i, r in enumerate(table):
+                if r["rule"] not in PUBLIC and not r["static"] and r["prot"]:
+                    ms = [m for m in r["methods"] if m in skipped and not (m == "OPTIONS" and r["auto"])]
+                    if ms:
+                        tgt = (i, ms[0]); break
+            verdict["method_witness"] = tgt and {"rule": table[tgt[0]]["rule"], "method": tgt[1]}
+            if tgt is not None:
+                body += (f"theorem violated_method : ¬ C15_fullM table methodObs := C15_witness_method table methodObs {tgt[0]} {lean_str(tgt[1])} (by decide)\n"
+                         "#print axioms violated_method\n")
     if calls is not None:
         cbody, cverdict = gen_calls(calls)
         body += cbody
@@ -587,6 +617,36 @@ def gen_lean(table, static_files, triples=(), calls=None):
             "def table : Table :=\n  { routes := [\n    " + rows + " ],\n    staticFiles := [" + ", ".join(lean_str(f) for f in static_files) + "] }\n"
             + body + "end Bptk.C15.Gen\n")
     return text, verdict
+
+
+# ------------------------------------------------------------------ probe: does the wrapper consult the method? (wave 6)
+PROBE_METHODS = ["GET", "HEAD", "POST", "PUT", "DELETE", "PATCH", "OPTIONS", "TRACE"]
+
+
+def probe_method_check():
+    """(method, the wrapper let a refused credential through?) — a wrapped view is called directly inside a request
+    context of each method (so Flask's own 405 / automatic OPTIONS do not hide anything), without header and with a
+    wrong token; "through" = the view's inner function was entered."""
+    from BPTK_Py.server import BptkServer
+    app = BptkServer("c15meth", factory, None, TOKEN)
+    app.logger.disabled = True
+    reach = Reach(app)
+    rows = []
+    try:
+        for m in PROBE_METHODS:
+            through = False
+            for hdrs in ({}, {"Authorization": "Bearer not-the-token"}):
+                reach.hit = False
+                try:
+                    with app.test_request_context("/scenarios", method=m, headers=hdrs):
+                        app._scenarios_resource()
+                except Exception:
+                    pass
+                through = through or bool(reach.hit)
+            rows.append((m, through))
+    finally:
+        reach.close()
+    return rows
 
 
 # ------------------------------------------------------------------ call order inside one request (wave 5)
@@ -908,7 +968,16 @@ def run(chk):
             table, static_files = probe_table()
             triples = probe_compare()
             calls = probe_calls(table)
-        gen_text, verdict = gen_lean(table, static_files, triples, calls)
+            mrows = probe_method_check()
+        skipped = {m for m, v in mrows if v}
+        if skipped:
+            # a view reached without the token only through methods for which the WRAPPER skips the check is a protected
+            # view behind a method-dependent wrapper (handleM), not an undecorated one
+            for r in table:
+                if not r["static"] and r["reached_by"] and all(m in skipped for m in r["reached_by"]):
+                    r["prot"] = True
+        gen_text, verdict = gen_lean(table, static_files, triples, calls, mrows)
+        chk.notes["method_probe"] = [list(x) for x in mrows]
         chk.notes["call_order_probe"] = {"rows": len(calls), "programs": sorted({(r["rule"], r["method"], " > ".join(r["accepted"][:4])) for r in calls})[:80]}
         for r in calls:      # reference: a refused request must not enter any state-touching function
             if r["rule"] in PUBLIC:
@@ -954,6 +1023,9 @@ def run(chk):
             real_lines.append("ok"); ctx.append(None)
         for f in static_files:
             req_lines.append("static " + enc(f)); real_lines.append("ok"); ctx.append(None)
+        for m_, v_ in mrows:              # methods for which the wrapper was observed to skip the check
+            if v_:
+                req_lines.append("mobs %s 1" % m_); real_lines.append("ok"); ctx.append(None)
         for p_, e_, v_, _ in triples:     # the model's comparison = string equality patched by what was observed
             req_lines.append("obs %s %s %d" % (enc(p_), enc(e_), v_)); real_lines.append("ok"); ctx.append(None)
         for p_, e_, v_, st_ in triples:   # reference: the decorator's verdict must be that of string equality
